@@ -22,7 +22,7 @@ ASSUMPTIONS = [
 
 
 def shards(tier, seed):
-    n = 1 if tier == 'quick' else 16
+    n = 8 if tier == 'quick' else 16
     return [dict(i=i, n=n) for i in range(n)]
 
 
@@ -82,7 +82,7 @@ def _ident(x):
 
 
 def run_shard(sink, tier, seed, shard):
-    n_trees = harness.scale(2500, 320000, tier)
+    n_trees = harness.scale(20000, 320000, tier)
     k = 6 if tier == 'quick' else 8
     opts = gen.all_opts()
     i0, step = (shard or {}).get('i', 0), (shard or {}).get('n', 1)
